@@ -266,11 +266,14 @@ def report(prop, a, checks, results, native, seed, t0):
         if n.get('ok') is None:
             undecided.append(f"{n['name']}: {n.get('detail', '')[:300]}")
         elif n.get('ok') is False:
+            n_viol_before = len(violations)
             for w in n.get('witnesses', [{'key': 'unspecified', 'detail': n.get('detail', '')}]):
                 v = {'verdict': 'refuted', 'native_witness': w, 'model': None, 'inputs': w.get('inputs'),
                      'replay_fn': n.get('replay_fn'), 'witness_key': w.get('key'), 'detail': w.get('detail')}
                 handle_refutation(prop, n['name'], v, known, known_hits, violations, undecided, None, replays_dir,
                                   native_confirmed=True)
+            if len(violations) == n_viol_before:
+                rec['known_finding_only'] = True     # fails only for recorded known findings: not claimed as proved
         else:
             if n.get('tag') == 'F':
                 proved_names.add(n['name'])
@@ -313,7 +316,7 @@ def report(prop, a, checks, results, native, seed, t0):
     for c in crashes:
         print(f'CRASH property={prop} {c}', file=sys.stderr)
     n_known_vcs = sum(k.get('_hits', 0) for k in known_hits)
-    n_oblig = n_vc + len(finite) - n_known_vcs
+    n_oblig = n_vc + len([x for x in finite if not x.get('known_finding_only')]) - n_known_vcs
     n_disch = n_proved + sum(1 for x in finite if x['ok'])
     evidence = {
         'property_id': prop, 'tier': a.tier, 'seed': seed, 'level': 'proof',
